@@ -130,9 +130,14 @@ def run_shard(shard, tier, acc):
     acc.feature("stream_" + shard["prop"])
     o64, v64 = _run_stream(mod, cases, 64)
     o32, v32 = _run_stream(mod, cases, 32)
+    # back to the default: the first cases once more -- selecting the 32-bit configuration must leave nothing behind
+    k = min(len(cases), 150)
+    o64b, v64b = _run_stream(mod, cases[:k], 64)
     for i, case in enumerate(cases):
         acc.begin([shard["prop"], case])
         _compare(acc, o64[i], v64[i], o32[i], v32[i])
+        if i < k and (o64b[i] != o64[i] or v64b[i] != v64[i]):
+            acc.fail("default-configuration-differs-after-a-32-bit-episode", {"before": o64[i]}, {"after": o64b[i]})
 
 
 def _compare(acc, o64, v64, o32, v32):
@@ -155,6 +160,9 @@ def check(case, acc):
     prop, sub = case
     if prop == "named":
         o64, o32 = _run_named(sub, 64), _run_named(sub, 32)
+        o64b = _run_named(sub, 64)
+        if o64b != o64:
+            acc.fail("default-configuration-differs-after-a-32-bit-episode", {"before": o64}, {"after": o64b})
         acc.trans(2)
         acc.state(o64)
         acc.outcome(o64)
@@ -165,7 +173,10 @@ def check(case, acc):
     mod = explore.load_check(prop)
     o64, v64 = _run_stream(mod, [sub], 64)
     o32, v32 = _run_stream(mod, [sub], 32)
+    o64b, v64b = _run_stream(mod, [sub], 64)
     _compare(acc, o64[0], v64[0], o32[0], v32[0])
+    if o64b[0] != o64[0] or v64b[0] != v64[0]:
+        acc.fail("default-configuration-differs-after-a-32-bit-episode", {"before": o64[0]}, {"after": o64b[0]})
 
 
 def _classify(diff):
